@@ -135,6 +135,23 @@ def native_replay(files, cases_by_pkg, tmp):
     return results, None
 
 
+def solver_crosscheck(spec, jobs, ovp, tmp):
+    """Re-runs the first job single-process with the solver transcript recorded and
+    replays that transcript on z3-new and cvc5."""
+    import crosscheck
+    logdir = os.path.join(tmp, "smtlog")
+    os.makedirs(logdir, exist_ok=True)
+    j = dict(jobs[0])
+    j["id"] = "crosscheck"
+    j["max_paths"] = 400
+    jp = os.path.join(tmp, "xc_jobs.json")
+    json.dump({"jobs": [j]}, open(jp, "w"))
+    subprocess.run([os.path.join(VERIF, "bin", "symx"), "-repo", REPO, "-overlay", ovp, "-jobs", jp, "-out",
+                    os.path.join(tmp, "xc_out.json"), "-workers", "1"], env=dict(GOENV, SYMX_SMTLOG=logdir, SYMX_NOSHARE=""),
+                   capture_output=True, text=True)
+    return crosscheck.crosscheck(logdir)
+
+
 def short_pkg(job):
     return job["pkg_short"]
 
@@ -270,6 +287,12 @@ def _run(spec, tier, seed, tmp, t0):
         inconclusive.append("%d counterexample(s) did not reproduce natively (encoder or stub suspect), first: %s" % (
             len(unconfirmed), json.dumps(unconfirmed[0])[:600]))
 
+    xc = None
+    if tier == "thorough" or os.environ.get("VERIF_CROSSCHECK"):
+        xc = solver_crosscheck(spec, jobs, ovp, tmp)
+        for name, r in (xc.get("others") or {}).items():
+            if r.get("disagreements"):
+                inconclusive.append("solver disagreement: %s differs from z3 4.8.12 at check-sat #%s of the replayed transcript" % (name, r.get("first_disagreement_at")))
     extra = None
     if spec.post is not None:
         extra = spec.post(tier, seed)
@@ -284,11 +307,11 @@ def _run(spec, tier, seed, tmp, t0):
             else:
                 confirmed.append(vv)
     return finish(spec, tier, seed, t0, results=results, out=out, inconclusive=inconclusive, validated=validated,
-                  confirmed=confirmed, known_seen=known_seen, wit_total=len(wit_index), extra=extra)
+                  confirmed=confirmed, known_seen=known_seen, wit_total=len(wit_index), extra=extra, xc=xc)
 
 
 def finish(spec, tier, seed, t0, results=None, out=None, inconclusive=None, validated=0, confirmed=None,
-           known_seen=None, wit_total=0, extra=None):
+           known_seen=None, wit_total=0, extra=None, xc=None):
     pid = spec.pid
     results = results or []
     confirmed = confirmed or []
@@ -366,6 +389,8 @@ def finish(spec, tier, seed, t0, results=None, out=None, inconclusive=None, vali
         "wall_s": round(time.time() - t0, 2),
         "violations": len(confirmed),
     }
+    if xc:
+        ev["coverage"]["solver_crosscheck"] = xc
     if extra and extra.get("coverage"):
         ev["coverage"]["language_comparison"] = extra["coverage"]
         ev["coverage"]["traces_validated_against_impl"] += extra["coverage"].get("samples_run_on_real_parser", 0)
